@@ -32,7 +32,7 @@ func ZZ_C04_ValueTruncation() {
 func ZZ_C04_ValueHostile() {
 	L := 1 + zzvf.Choose(6)
 	if zzvf.Thorough() {
-		L = 1 + zzvf.Choose(8) // (9 bytes: not finished in 40 min — outside the claim)
+		L = 1 + zzvf.Choose(7) // (8 and 9 bytes: not finished in 40 min — outside the claim)
 	}
 	buf := zzvf.Bytes(L)
 	zzvf.AllocBudget(L, 16, 1<<20)
